@@ -576,7 +576,10 @@ int dns_decode(char *buf, size_t buflen, struct query *q, qr_t qr, char *packet,
 			offset = 0;
 			i = 0;
 			while (names[i][0] != '\0') {
-				int l = MIN(strlen(names[i]), buflen-offset-2);
+				int l;
+				if (offset + 2 >= buflen)
+					break;	/* no room for more; buflen-offset-2 must not wrap */
+				l = MIN(strlen(names[i]), buflen-offset-2);
 				if (l <= 0)
 					break;
 				memcpy(buf + offset, names[i], l);
